@@ -1,4 +1,83 @@
-import MoPepGen.Spec.CallVariant
+import MoPepGen.Props.C02
+/-!
+# C03 — FASTA headers are truthful witnesses  (PARTIAL: label bookkeeping of the traversal
+is not modelled; every emitted (peptide, entry) pair is validated by `Spec.witness`)
+
+Proved: the witness predicate means what the property says (C02 `witness_sound`); the
+"completion" the harness uses to describe a failing entry is sound; and the per-call label
+counter (`VariantPeptideDict.get_peptide_sequences`: `labels[label] += 1; label|k`) never
+issues the same entry string twice.
+-/
 namespace MoPepGen.Props.C03
-theorem placeholder : True := trivial
+open MoPepGen MoPepGen.Spec MoPepGen.Props.C01 MoPepGen.Props.C02
+
+/-- an accepted entry names only records of the input and is a witness in the property's sense -/
+theorem entry_truthful (g : Cfg) (t : TxIn) (vs : List Var) (ids : List Nat) (p : Pep)
+    (h : witness g t vs ids p = true) :
+    (∀ i ∈ ids, ∃ w ∈ vs, ∃ v, usable t w = some v ∧ i ∈ v.ids) ∧
+      RealizableByRecords g t vs ids p := by
+  have hr := witness_sound g t vs ids p h
+  refine ⟨?_, hr⟩
+  obtain ⟨hh, hin, _, _, hcov, _⟩ := hr
+  intro i hi
+  obtain ⟨v, hv, hiv⟩ := hcov i hi
+  obtain ⟨w, hw, hu⟩ := hin v hv
+  exact ⟨w, hw, v, hu, hiv⟩
+
+/-- if the completion analysis returns a set of ids, some compatible combination containing the
+named records yields the peptide (so the entry "omits" records rather than naming wrong ones) -/
+theorem completion_sound (g : Cfg) (t : TxIn) (vs : List Var) (ids extra : List Nat) (p : Pep)
+    (h : witnessCompletion g t vs ids p = some extra) :
+    ∃ hp ∈ haplotypes t vs, (∀ i ∈ ids, i ∈ hp.flatMap (·.ids)) ∧ ProductOf g t hp p := by
+  unfold witnessCompletion at h
+  generalize hc : (haplotypes t vs).filter (fun h =>
+    ids.all (h.flatMap (·.ids)).contains &&
+      (peptidesOf g t (applyHap t.seq h) (secAfter t.sec h) t.endNF).contains p) = cands at h
+  cases cands with
+  | nil => simp at h
+  | cons c cs =>
+    have hm : c ∈ (haplotypes t vs).filter (fun h =>
+        ids.all (h.flatMap (·.ids)).contains &&
+          (peptidesOf g t (applyHap t.seq h) (secAfter t.sec h) t.endNF).contains p) := by
+      rw [hc]; simp
+    simp only [List.mem_filter, Bool.and_eq_true, List.all_eq_true, List.contains_iff_mem] at hm
+    exact ⟨c, hm.1, hm.2.1, hm.2.2⟩
+
+/-! ### the label counter -/
+
+/-- M: `labels[label] += 1; label += f"|{labels[label]}"` over the base labels in the order
+they are emitted by one `get_peptide_sequences` call (`seen` = the labels counted so far) -/
+def numberFrom (seen : List String) : List String → List (String × Nat)
+  | [] => []
+  | b :: bs => (b, seen.count b + 1) :: numberFrom (b :: seen) bs
+
+theorem numberFrom_gt (seen bs : List String) :
+    ∀ e ∈ numberFrom seen bs, seen.count e.1 < e.2 := by
+  induction bs generalizing seen with
+  | nil => simp [numberFrom]
+  | cons b bs ih =>
+    intro e he
+    simp only [numberFrom, List.mem_cons] at he
+    rcases he with rfl | he
+    · simp
+    · have := ih (b :: seen) e he
+      by_cases hb : b = e.1
+      · subst hb; simp at this; omega
+      · rw [List.count_cons_of_ne hb] at this; exact this
+
+/-- every entry string `label|k` is issued at most once per call -/
+theorem label_counter_distinct (bs : List String) : (numberFrom [] bs).Nodup := by
+  suffices h : ∀ seen, (numberFrom seen bs).Nodup from h []
+  induction bs with
+  | nil => intro seen; simp [numberFrom]
+  | cons b bs ih =>
+    intro seen
+    simp only [numberFrom, List.nodup_cons]
+    refine ⟨?_, ih _⟩
+    intro hmem
+    have := numberFrom_gt (b :: seen) bs _ hmem
+    simp at this
+
+example : numberFrom [] ["T|v", "T|w", "T|v"] = [("T|v", 1), ("T|w", 1), ("T|v", 2)] := by decide
+
 end MoPepGen.Props.C03
